@@ -313,6 +313,9 @@ func runJobs(l *symex.Loaded, hs []*harnessFile, jobs []job, workers int, cfg sy
 					if v, ok := j.Spec.Opts["fires"]; ok {
 						c.MaxTimerFires, _ = strconv.Atoi(v)
 					}
+					if v, ok := j.Spec.Opts["prompt"]; ok {
+						c.PromptTime = v != "0"
+					}
 					if v, ok := j.Spec.Opts["preempt"]; ok {
 						c.PreemptBound, _ = strconv.Atoi(v)
 					}
@@ -418,6 +421,7 @@ func cmdCase(argv []string) int {
 	arith := fs.Bool("arith", false, "arithmetic-first solving (cvc5)")
 	choices := fs.String("choices", "", "debug: replay this comma separated choice sequence")
 	preempt := fs.Int("preempt", -1, "preemption bound (-1: unbounded with sleep sets)")
+	prompt := fs.Bool("prompt", false, "discrete-event time: the clock moves only when nobody can run")
 	fs.Parse(argv)
 	hs, err := loadHarnesses()
 	if err != nil {
@@ -454,6 +458,7 @@ func cmdCase(argv []string) int {
 	cfg.PreemptBound = *preempt
 	cfg.MaxTimerFires = *fires
 	cfg.ArithFirst = *arith
+	cfg.PromptTime = *prompt
 	if b := os.Getenv("VERIF_CASE_BUDGET"); b != "" {
 		if sec, err := strconv.Atoi(b); err == nil {
 			cfg.CaseBudget = time.Duration(sec) * time.Second
@@ -473,8 +478,8 @@ func cmdCase(argv []string) int {
 	} else {
 		rep := res[0].Report
 		if rep != nil {
-			fmt.Printf("paths=%d infeasible=%d decisions=%d steps=%d asserts(sym=%d conc=%d) queries(sat=%d unsat=%d unknown=%d fallbacks=%d, %.2fs max %.2fs) wall=%.2fs cachehits=%d\n",
-				rep.Paths, rep.Infeasible, rep.Decisions, rep.Steps, rep.AssertsSym, rep.AssertsConc, rep.Queries.Sat, rep.Queries.Unsat, rep.Queries.Unknown, rep.Queries.Fallbacks*1000+rep.Queries.Cvc5, rep.Queries.Time.Seconds(), rep.Queries.MaxQuery.Seconds(), rep.WallS, rep.Queries.CacheHits)
+			fmt.Printf("paths=%d infeasible=%d decisions=%d steps=%d asserts(sym=%d conc=%d) queries(sat=%d unsat=%d unknown=%d fallbacks=%d, %.2fs max %.2fs) wall=%.2fs cachehits=%d badmodels=%d\n",
+				rep.Paths, rep.Infeasible, rep.Decisions, rep.Steps, rep.AssertsSym, rep.AssertsConc, rep.Queries.Sat, rep.Queries.Unsat, rep.Queries.Unknown, rep.Queries.Fallbacks*1000+rep.Queries.Cvc5, rep.Queries.Time.Seconds(), rep.Queries.MaxQuery.Seconds(), rep.WallS, rep.Queries.CacheHits, rep.Queries.BadModels)
 			var labels []string
 			for k := range rep.Discharged {
 				labels = append(labels, k)
